@@ -136,6 +136,13 @@ def run(run, P, funcs=None):
                         if not ok:
                             run.violation('R-PERSIST', fname, ev['loc'], 'truncating-open:%s' % short(call['a'][0])[:40],
                                           'the persistence file itself is opened with truncating mode "%s" in an updater (a crash now leaves an empty/torn file)' % mode, ctx.path())
+                        if origin == 'tmp' and mode:
+                            ok2 = truncates(mode)
+                            run.oblige('R-PERSIST', ok2, '%s:open-tmp-truncating:%s' % (fname, mode))
+                            if not ok2:
+                                run.violation('R-PERSIST', fname, ev['loc'], 'tmp-open-not-truncating',
+                                              'the .tmp copy is opened with "%s", which keeps what an interrupted earlier update left in it: the complete new state is appended behind a '
+                                              'possibly torn old one and renamed over the live file' % mode, ctx.path())
                 return [e]
             if t.get('k') != 'call':
                 return None
